@@ -134,7 +134,7 @@ func c15Idle(r *Result) {
 // request 0.6 T after the handshake (each wait shorter than T, the two together longer): the request must be answered - with and
 // without a SessionAuthHandler, whose presence must not change how deadlines are armed.
 func c15SlowHandshake(r *Result) {
-	const T = 400 * time.Millisecond
+	const T = 600 * time.Millisecond
 	ca := tlsm.NewCA("c15s-ca")
 	serverCert := tlsm.Leaf(ca, tlsm.LeafOpts{Host: "kmip.test"})
 	clientCert := tlsm.Leaf(ca, tlsm.LeafOpts{Host: "client.test", Client: true})
